@@ -15,6 +15,9 @@ The same child also runs with `-W error` - the caller's warnings filter turns ev
 PYTHONWARNINGS=error and pytest's `filterwarnings = error` do: a DeprecationWarning the library trips over in its own code, or a FutureWarning from a
 re-spelled regular expression, is invisible under the default filter and makes a valid call raise under this one.
 
+And with `logging.disable(logging.CRITICAL)` in force (a host application that has silenced logging; the process-with-a-past child runs with the root
+logger at DEBUG): reports that travel through `logging` vanish, debug-only code paths run.
+
 And it runs with another string-hash seed (PYTHONHASHSEED=1; the parent runs with 0, the process-with-a-past child with 2): a result that
 follows the iteration order of a set of strings differs between interpreter runs; three fixed seeds make three different orders.
 """
@@ -31,7 +34,7 @@ ROOT = os.path.dirname(os.path.dirname(os.path.dirname(os.path.abspath(__file__)
 def _check(prop):
     d = os.path.join(scratch_dir(), "optimised-" + prop)
     os.makedirs(d, exist_ok=True)
-    env = dict(os.environ, PRAATIO_SRC=SRC, VERIF_EVIDENCE_DIR=d, VERIF_REPLAY_DIR=d, VERIF_CHILD="1", VERIF_INPUT_STRIDE="23", VERIF_INPUT_DENSE="400",
+    env = dict(os.environ, PRAATIO_SRC=SRC, VERIF_EVIDENCE_DIR=d, VERIF_REPLAY_DIR=d, VERIF_CHILD="1", VERIF_LOGGING="disabled", VERIF_INPUT_STRIDE="23", VERIF_INPUT_DENSE="400",
                VERIF_BFS_DEPTH_CAP="1", PYTHONDONTWRITEBYTECODE="1", PYTHONHASHSEED="1")
     env.pop("PYTHONOPTIMIZE", None)
     env.pop("PYTHONWARNINGS", None)
